@@ -726,6 +726,61 @@ Proof.
   destruct Hc as [->|(o & w & ->)]; reflexivity.
 Qed.
 
+(* ================= a call that raises delivers nothing ================= *)
+(* [run] pushes every call of the history through every path, including those that raise at the
+   top: that is right because such a call reaches no log and no TestByTestResult *)
+Lemma through_nil ls lf : through ls lf [] = [].
+Proof. induction ls as [|l r IH]; [reflexivity|]. simpl. exact IH. Qed.
+
+Lemma through_app ls lf : forall h1 h2, through ls lf (h1 ++ h2) = through ls lf h1 ++ through ls lf h2.
+Proof.
+  induction ls as [|l r IH]; intros h1 h2; [reflexivity|]. simpl. rewrite flat_map_app. apply IH.
+Qed.
+
+Lemma piface_paths a p : In p (paths a) -> piface (fst p) (snd p) = iface a.
+Proof.
+  destruct a as [c| |a|l|a|n g a]; simpl; intro H.
+  - destruct H as [<-|[]]. reflexivity.
+  - destruct H as [<-|[]]. reflexivity.
+  - apply in_map_iff in H as (q & <- & _). reflexivity.
+  - apply in_flat_map in H as (x & _ & H). apply in_map_iff in H as (q & <- & _). reflexivity.
+  - apply in_map_iff in H as (q & <- & _). reflexivity.
+  - apply in_map_iff in H as (q & <- & _). reflexivity.
+Qed.
+
+Definition silent (lf : leaf) (cs : list call) : Prop :=
+  match lf with
+  | LfTarget cp => target_log cp cs = []
+  | LfByTest => sig cs = []
+  end.
+
+Lemma through_done ls lf : silent lf (through ls lf [Done]).
+Proof.
+  induction ls as [|l r IH].
+  - destruct lf; reflexivity.
+  - simpl through. rewrite app_nil_r.
+    assert (H : layer_conv l (piface r lf) Done = [] \/ layer_conv l (piface r lf) Done = [Done]).
+    { destruct l; simpl; try (destruct (c_done (piface r lf))); auto. }
+    destruct H as [-> | ->]; [|exact IH]. rewrite through_nil. destruct lf; reflexivity.
+Qed.
+
+Lemma raising_call_delivers_nothing a c e : raises a c = Some e ->
+  forall p, In p (paths a) -> silent (snd p) (through (fst p) (snd p) [c]).
+Proof.
+  intro H. destruct (raises_only _ _ _ H) as [_ [->|(o & w & ->)]].
+  - intros p _. apply through_done.
+  - revert H. induction a as [cp| |a IH|l IH|a IH|n g a IH] using adapter_ind'; simpl; intros H p Hin.
+    + destruct Hin as [<-|[]]. simpl. destruct (c_progress cp); [discriminate|reflexivity].
+    + destruct Hin as [<-|[]]. reflexivity.
+    + apply in_map_iff in Hin as (q & <- & Hq). simpl. rewrite app_nil_r.
+      rewrite (piface_paths a q Hq). destruct (c_progress (iface a)); [|discriminate].
+      apply IH; assumption.
+    + apply in_flat_map in Hin as (x & _ & Hin). apply in_map_iff in Hin as (q & <- & _).
+      simpl. rewrite through_nil. destruct (snd q); reflexivity.
+    + apply in_map_iff in Hin as (q & <- & Hq). simpl. apply IH; assumption.
+    + apply in_map_iff in Hin as (q & <- & Hq). simpl. apply IH; assumption.
+Qed.
+
 (* ================= the model meets the statement ================= *)
 Lemma forallb_filter {A} (p q : A -> bool) l : forallb p l = true -> forallb p (filter q l) = true.
 Proof.
